@@ -334,6 +334,9 @@ class SetGen:
                     self.group(mname, add, imp, pick_parent, nodes)
                 else:
                     self.compliance(mname, add, imp, pick_parent, nodes)
+            if rng.random() < 0.6:
+                # (a compliance statement needs groups to speak about: by now there usually are some, here or elsewhere)
+                self.compliance(mname, add, imp, pick_parent, nodes)
             if self.chains and rng.random() < 0.8:
                 self.add_chain(mname, m, add, imp, pick_parent)
             if self.chains and mi > 0 and rng.random() < 0.5:
@@ -709,6 +712,10 @@ class SetGen:
             if pm not in homes:
                 homes.append(pm)
         rng.shuffle(homes)
+        if mname in homes and len(homes) > 1 and rng.random() < 0.5:
+            # the clause for this module after a clause that names another module (an unnamed clause after a named one)
+            homes.remove(mname)
+            homes.insert(rng.randint(1, len(homes)), mname)
         clauses = []
         for h in homes:
             cm = [{'name': k[1], 'module': k[0]} for k, t in mand if k[0] == h]
